@@ -13,6 +13,9 @@ CHECKS = {
     'C07': dict(category='proof', design_ref='DESIGN.md §3 C07', technique=TECH + '; labelled bounded fault injection for output equality',
                 text='call_variant_peptides_wrapper is executed symbolically with every per-unit caller havocked (returns or raises anything), for any number of fusions/circRNAs: definite assignment on all exceptional paths, a failed unit merges no peptides and stores no graph, success flags false iff a unit of that kind failed, a failure without --skip-failed always propagates and never reaches write_fasta; tally increments proved in the result loop of call_variant_peptide.',
                 note='The per-unit callers and the closure add_peptide_anno are assumed (havoc / first-wins merge). Output = failure-free output minus failing units: bounded fault-injection runs on the demo inputs, threads=1 (evidence: coverage.bounded). Parser CLI loops not yet under contract.'),
+    'C08': dict(category='proof', design_ref='DESIGN.md §3 C08', technique=TECH + '; labelled bounded definitional oracle for peptide content',
+                text='The transcript-selection loop of the real call_novel_orf_peptide is proved for all annotations and option values: call_noncoding_peptide_main(tx) is reached iff tx is selected by the options as the property states (coding only with --coding-novel-orf; biotype, proteome and length filters); every peptide goes through VariantPeptidePool.add_peptide with the global canonical pool and the run parameters.',
+                note='Peptide content = three-frame ORF digest minus canonical pool, and ORF FASTA coordinates: bounded oracle on the demo reference over an option lattice only (evidence: coverage.bounded); one known finding (K2) there. call_noncoding_peptide_main is havocked.'),
 }
 
 _PENDING = 'contracts for this property are not built yet in this revision (planned: see DESIGN.md §3); not claimed until they discharge'
